@@ -23,7 +23,7 @@
 (***************************************************************************)
 EXTENDS Naturals, Integers, Sequences, FiniteSets
 
-CW(c) == CASE c = "@E" -> 2 [] c = "@T" -> 3 [] c = "@K" -> 3 [] c = "@Q" -> 4 [] OTHER -> 1
+CW(c) == CASE c = "@E" -> 2 [] c = "@Z" -> 2 [] c = "@T" -> 3 [] c = "@K" -> 3 [] c = "@Q" -> 4 [] OTHER -> 1
 RECURSIVE BytePos(_, _)
 BytePos(re, i) == IF i <= 0 THEN 0 ELSE IF i > Len(re) THEN BytePos(re, Len(re)) + (i - Len(re)) ELSE BytePos(re, i - 1) + CW(re[i])
 BLen(re) == BytePos(re, Len(re))
@@ -33,7 +33,7 @@ HexDigits == Digits \cup {"a", "b", "c", "d", "e", "f", "A", "B", "C", "D", "E",
 AsciiLower == {"a", "b", "c", "d", "e", "f", "g", "h", "i", "j", "k", "l", "m", "n", "o", "p", "q", "r", "s", "t", "u", "v", "w", "x", "y", "z"}
 AsciiUpper == {"A", "B", "C", "D", "E", "F", "G", "H", "I", "J", "K", "L", "M", "N", "O", "P", "Q", "R", "S", "T", "U", "V", "W", "X", "Y", "Z"}
 AsciiAlpha == AsciiLower \cup AsciiUpper
-IdChars == AsciiAlpha \cup Digits \cup {"_", "@E", "@T", "@K"}          \* char::is_alphanumeric or '_'
+IdChars == AsciiAlpha \cup Digits \cup {"_", "@E", "@Z", "@T", "@K"}          \* char::is_alphanumeric or '_'
 DigVal(c) == CASE c = "0" -> 0 [] c = "1" -> 1 [] c = "2" -> 2 [] c = "3" -> 3 [] c = "4" -> 4 [] c = "5" -> 5 [] c = "6" -> 6 [] c = "7" -> 7 [] c = "8" -> 8 [] c = "9" -> 9
 
 At(re, i) == IF i >= 0 /\ i < Len(re) THEN re[i + 1] ELSE "<eof>"        \* character at 0-based index
@@ -233,6 +233,7 @@ CharOf(cp) ==
      [] cp = 10 -> "\n"
      [] cp = 13 -> "\r"
      [] cp = 9 -> "\t"
+     [] cp = 201 -> "@Z"
      [] cp = 233 -> "@E"
      [] cp = 3585 -> "@K"
      [] cp = 12354 -> "@T"
